@@ -247,6 +247,8 @@ def gen_case(seeds, params, index):
         op = {'op': 'eval', 'stmt': si, 'doc': di,
               'ci': w.random() < 0.5, 'co': w.random() < 0.85,
               'target': w.choice(['child', 'child', 'child', 'P', 'C'])}
+        if s['flavour'] == 'default' and w.random() < 0.08:
+            op['host'] = 'bare'     # hand-built chain without a finalizer
         if di is None:
             op['target'] = 'none'
         elif w.random() < 0.05:
@@ -296,6 +298,32 @@ def prepare(params, replay=False):
             'hand_written_statements': len(HAND)}
 
 
+def bare_root():
+    """A context chain the host populated by hand with the library modules'
+    register() functions - no '#finalize' / '#iter' anywhere (yaql then
+    installs an identity finalizer in a throw-away child per evaluation)."""
+    r = _state.get('bare_root')
+    if r is None:
+        from yaql.language import contexts, conventions
+        from yaql.standard_library import (
+            boolean, branching, collections, common, math, queries, regex,
+            strings, system)
+        root = contexts.Context(convention=conventions.CamelCaseConvention())
+        system.register_fallbacks(root)
+        ctx = root.create_child_context()
+        system.register(ctx, False)
+        common.register(ctx)
+        boolean.register(ctx)
+        strings.register(ctx)
+        math.register(ctx)
+        collections.register(ctx, False)
+        queries.register(ctx, True)
+        regex.register(ctx)
+        branching.register(ctx)
+        r = _state['bare_root'] = ctx
+    return r
+
+
 class Host:
     """The simulated host: contexts, functions, documents, statements."""
 
@@ -305,8 +333,8 @@ class Host:
         self.probe_fail_at = None
         self.layers = {}
         self.hostlist = [1, 2, [3, 4]]
-        for fl in ('default', 'legacy'):
-            root = synth.chain_contexts(fl)
+        for fl in ('default', 'legacy', 'bare'):
+            root = bare_root() if fl == 'bare' else synth.chain_contexts(fl)
             P = root.create_child_context()
             host = self
 
@@ -542,18 +570,19 @@ def execute(case, stats):
                 stats.inc('status.unbuildable_statement')
                 first.setdefault(('unbuildable', op['stmt']), type(e).__name__)
                 continue
-            L = host.layers[fl]
+            hfl = op.get('host') or fl
+            L = host.layers[hfl]
             tgt = op['target']
             if tgt == 'child':
                 ctx = L['P'].create_child_context()
             elif tgt == 'P':
                 ctx = L['P']
                 if op.get('via') != 'yi':
-                    host.dollar_ok[fl].add('P')
+                    host.dollar_ok[hfl].add('P')
             elif tgt == 'C':
                 ctx = L['C']
                 if op.get('via') != 'yi':
-                    host.dollar_ok[fl].add('C')
+                    host.dollar_ok[hfl].add('C')
             else:
                 ctx = None
             via_yi = op.get('via') == 'yi' and not fault and \
@@ -650,7 +679,8 @@ def execute(case, stats):
                                              outcome=outcome[:2])))
                         break
             # I3: converted results alias no host container
-            if not viols and outcome[0] == 'ok' and op['co'] and not fault:
+            if not viols and outcome[0] == 'ok' and op['co'] and not fault \
+                    and hfl != 'bare':     # no finalizer = no conversion
                 p = find_alias(r, host.host_ids)
                 if p:
                     viols.append(v_('result-aliases-host-data', step, descr,
@@ -664,14 +694,14 @@ def execute(case, stats):
                             break
                     if not viols and (
                             ser.ser_value(host.hostlist) != host.hostlist_pristine
-                            or host.compare_contexts(fl)):
+                            or host.compare_contexts(hfl)):
                         viols.append(v_('mutating-result-changed-host-data',
                                         step, descr, {'doc': 'host context'}))
                 stats.inc('probe.alias_checked_results')
             # I4: history independence
             if not viols and not fault:
                 key = (op['stmt'], op['doc'], op['ci'], op['co'],
-                       'none' if tgt == 'none' else 'host', bool(via_yi))
+                       'none' if tgt == 'none' else 'host', bool(via_yi), hfl)
                 prev = first.get(key)
                 if prev is None:
                     first[key] = (outcome, step, nabort)
@@ -750,6 +780,7 @@ def describe_op(case, op):
             'flavour': case['stmts'][op['stmt']]['flavour'],
             'doc': op['doc'], 'convert_input': op['ci'],
             'convert_output': op['co'], 'target': op['target'],
+            'host_chain': op.get('host', 'create_context'),
             'fault': op.get('fault')}
 
 
